@@ -77,6 +77,42 @@ def _dict_paths(x, path=()):
     return out
 
 
+def around_union_trials(ctx):
+    """Unconvertible values before / after / next to a union-of-models element, and in the NEXT document parsed with the
+    same parser and configuration objects: kept with a warning, or ParserError when conversion warnings fail."""
+    from xsdata.formats.dataclass.context import XmlContext
+    from xsdata.formats.dataclass.parsers import XmlParser
+
+    from .. import handler_bind as hb
+    from ..poly_models import UThenInt
+
+    U = "<u><w>s</w><v>1</v></u>"
+    docs = [("after", f"<UThenInt>{U}<n>abc</n></UThenInt>", "abc"), ("before", f"<UThenInt><before>abc</before>{U}</UThenInt>", "abc"),
+            ("attribute", f'<UThenInt a="abc">{U}</UThenInt>', "abc"), ("next-document", "<UThenInt><n>abc</n></UThenInt>", "abc")]
+    xctx = XmlContext()
+    for h in ("native", "lxml"):
+        for strict in (False, True):
+            cfg = ParserConfig(fail_on_converter_warnings=strict)
+            parser = XmlParser(context=xctx, handler=hb.HANDLERS[h], config=cfg)      # ONE parser and ONE configuration for all documents
+            for label, text, raw in docs:
+                ctx.case(("around-union", h, strict, label))
+                with warnings.catch_warnings(record=True) as w:
+                    warnings.simplefilter("always")
+                    try:
+                        got = ("ok", parser.from_string(text, UThenInt))
+                    except Exception as ex:  # noqa: BLE001
+                        got = ("exc", ex)
+                nw = sum(1 for x in w if issubclass(x.category, ConverterWarning))
+                info = {"text": text, "handler": h, "strict": strict}
+                if strict and not (got[0] == "exc" and isinstance(got[1], ParserError)):
+                    ctx.violation(f"unconvertible value {label} a union element with fail_on_converter_warnings ({h}): expected ParserError, got {got[1]!r}"[:400], info)
+                if not strict and not (got[0] == "ok" and raw in (got[1].n, got[1].before, got[1].a) and nw >= 1):
+                    ctx.violation(f"unconvertible value {label} a union element ({h}): expected the value kept with a ConverterWarning, got {got[1]!r} with {nw} warning(s)"[:400], info)
+                if cfg.fail_on_converter_warnings is not strict:
+                    ctx.violation(f"parsing changed the caller's ParserConfig: fail_on_converter_warnings is now {cfg.fail_on_converter_warnings} ({h}, document {label})", info)
+                    cfg.fail_on_converter_warnings = strict
+
+
 def restricted_wildcards(ctx):
     """Unknown content whose LOCAL name also occurs, in an admitted namespace, earlier or later in the same document:
     a ##other wildcard admits o:note / o:id and must not thereby admit w:note / w:id (the target namespace)."""
@@ -243,6 +279,7 @@ def run(ctx):
         check_case(ctx, case)
     dict_options(ctx, cases)
     dict_poly(ctx)
+    around_union_trials(ctx)
     restricted_wildcards(ctx)
     if cases:
         c = next((x for x in cases if x["fault"] == "unknownLast"), cases[0])
